@@ -359,6 +359,44 @@ thread_local! {
     pub static USER_OUTBOUND_LAYER: std::cell::Cell<bool> = const { std::cell::Cell::new(false) };
 }
 
+thread_local! {
+    /// how long the user outbound layer (if installed) holds every request before passing it on
+    pub static USER_OUTBOUND_DELAY_MS: std::cell::Cell<u64> = const { std::cell::Cell::new(0) };
+}
+
+/// user outbound middleware: waits `delay_ms`, then calls the wrapped service
+pub struct DelayFirst<S> {
+    inner: Option<S>,
+    delay_ms: u64,
+}
+
+impl<S> tower::Service<Request<Bytes>> for DelayFirst<S>
+where
+    S: tower::Service<Request<Bytes>, Response = Response<Bytes>, Error = anemo::Error> + Send + 'static,
+    S::Future: Send + 'static,
+{
+    type Response = Response<Bytes>;
+    type Error = anemo::Error;
+    type Future = BoxFuture<'static, Result<Response<Bytes>, anemo::Error>>;
+
+    fn poll_ready(&mut self, _: &mut Context<'_>) -> Poll<Result<(), anemo::Error>> {
+        Poll::Ready(Ok(()))
+    }
+
+    fn call(&mut self, req: Request<Bytes>) -> Self::Future {
+        // the outbound stack is built per call and used once
+        let mut inner = self.inner.take().expect("outbound layer used once per call");
+        let delay = self.delay_ms;
+        Box::pin(async move {
+            if delay > 0 {
+                tokio::time::sleep(Duration::from_millis(delay)).await;
+            }
+            futures::future::poll_fn(|cx| inner.poll_ready(cx)).await?;
+            inner.call(req).await
+        })
+    }
+}
+
 pub fn base_config() -> Config {
     let mut c = Config::default();
     c.connectivity_check_interval_ms = Some(5_000);
@@ -431,7 +469,10 @@ impl Sim {
                 builder = builder.alternate_server_name(alt.clone());
             }
             if USER_OUTBOUND_LAYER.with(|c| c.get()) {
-                builder = builder.outbound_request_layer(tower::layer::util::Identity::new());
+                // an application layer around every outbound call that takes its time (a client-side
+                // limiter, say): the call's deadline runs from the moment the RPC is issued
+                let delay = USER_OUTBOUND_DELAY_MS.with(|c| c.get());
+                builder = builder.outbound_request_layer(tower::layer::layer_fn(move |inner| DelayFirst { inner: Some(inner), delay_ms: delay }));
             }
             let started = match SERVER_LIMITS.with(|c| c.get()) {
                 Some((conc, inflight)) => {
